@@ -142,6 +142,20 @@ class Group:
     def prep_text(self, text, log):
         text = resolve_cfg(text, self.features, log)
         text = strip_docs_and_attrs(text, log)
+        # rule R1: a closure parameter `_` gets a name (Verus: "only variables are supported here")
+        def r1(mm):
+            self._r1 = getattr(self, "_r1", 0)
+            parts = [x.strip() for x in mm.group(1).split(",")]
+            out = []
+            for x in parts:
+                if x == "_":
+                    out.append("_vx%d" % self._r1)
+                    self._r1 += 1
+                else:
+                    out.append(x)
+            log.append({"rule": "R1-closure-underscore", "from": mm.group(0)})
+            return "|" + ", ".join(out) + "|"
+        text = re.sub(r"\|((?:\s*\w+\s*,)*\s*_\s*(?:,\s*\w+\s*)*)\|", r1, text)
         for rx, rp, tag in self.global_rewrites:
             new, n = re.subn(rx, rp, text)
             if n:
@@ -236,6 +250,9 @@ class Group:
             text = self.apply_replace(d, arg, text, "%s::%s" % (relf, ipath), log)
         text = publicise(text, True)
         log.append({"rule": "R10-visibility"})
+        for d, arg, dl in subs:
+            if d == "attr":
+                self.out.emit(arg, {"kind": "tmpl", "file": tmpl, "line": tline})
         self.rewrites += [dict(x, item="%s::%s" % (relf, ipath)) for x in log]
         self.out.emit_src(text, relf, it.line, ipath)
         self.functions.append({"path": "%s :: %s" % (relf, ipath), "kind": "item", "file": relf, "line": it.line,
@@ -243,7 +260,16 @@ class Group:
                                "sha256": hashlib.sha256(it.text.encode()).hexdigest()})
 
     def emit_impl_open(self, relf, ipath, subs, tmpl):
-        it = self.locate(relf, "impl " + ipath)
+        pick = [arg for d, arg, dl in subs if d == "pick"]
+        if pick:
+            fname = pick[0].split()[-1]
+            try:
+                f = find_item(self.src(relf), "%s :: %s" % (ipath, fname))
+            except LookupError as e:
+                raise Undecided("lost item %s :: %s :: %s (%s)" % (relf, ipath, fname, e))
+            it = f.owner
+        else:
+            it = self.locate(relf, "impl " + ipath)
         log = []
         hdr = self.prep_text(it.header, log)
         for d, arg, dl in subs:
@@ -252,6 +278,16 @@ class Group:
         self.out.emit_src(hdr.rstrip() + " {", relf, it.line, "impl " + ipath)
 
     def apply_replace(self, d, arg, text, where, log):
+        if d in ("replace_re", "replace_re?"):
+            a, b = parse_quoted_pair(arg)
+            new, n = re.subn(a, b, text, flags=re.S)
+            if n == 0:
+                if d.endswith("?"):
+                    self.lost.append({"where": where, "anchor": a})
+                    return text
+                raise Undecided("lost pattern in %s: %r" % (where, a))
+            log.append({"rule": "replace_re", "pattern": a, "to": b, "count": n})
+            return new
         if d in ("replace", "replace?", "replace*"):
             a, b = parse_quoted_pair(arg)
             n = text.count(a)
@@ -321,7 +357,7 @@ class Group:
             elif d == "loop":
                 n, k, rest = arg.split(None, 2) if len(arg.split(None, 2)) == 3 else (arg.split(None, 2) + [""])[:3]
                 loops.setdefault(int(n), []).append((k, rest))
-            elif d in ("replace", "replace?", "replace*"):
+            elif d in ("replace", "replace?", "replace*", "replace_re", "replace_re?"):
                 text = self.apply_replace(d, arg, text, fn_id, log)
             elif d in ("before", "after", "before?", "after?"):
                 pass  # handled below, after body split
@@ -524,7 +560,12 @@ class Group:
         for k, ln in enumerate(self.out.lines):
             mm = re.search(r"/\*VXCLAUSE ([^*]+)\*/", ln)
             if mm:
-                cid = mm.group(1)
+                cid = mm.group(1).strip()
+                if cid not in self.clauses:
+                    # clause introduced by a desugaring rule (replace_re): belongs to the function of this line
+                    fn_here = self.out.map[k].get("fn", "")
+                    self.add_clause(cid, "invariant", fn_here, ln.split("*/", 1)[1])
+                    cid = cid.split(",")[0].strip()
                 self.out.map[k] = {"kind": "clause", "id": cid, "fn": self.clauses[cid]["fn"]}
                 self.clauses[cid]["gen_line"] = k + 1
         return "\n".join(self.out.lines) + "\n"
